@@ -177,7 +177,7 @@ TAU = logu(0.1, 1e5)
 ISO = st.tuples(logu(1e-4, 1.0), logu(1e-12, 1e-3), TAU, logu(1e-8, 1e-1)).map(list)
 DT = logu(1e-14, 1e4)
 DT_BIG = logu(1e-3, 1e4)
-ETA = logu(1.0, 1e28)
+ETA = logu(1e-4, 1e28)      # down to liquid-like values (water ~1e-3 Pa s): the flux must stay monotone across eta = 1 Pa s too
 TEMP = logu(50.0, 4500.0)
 PRESSURE = weighted((st.just(0.0), 1), (logu(1e5, 1e11), 2))
 ACT_VOL = st.one_of(st.just(0.0), logu(1e-7, 2e-5))
